@@ -10,6 +10,7 @@
 //   - VSearch / VSearchGraph with an explicit text query (and the CONTAINS(field,'..') filter
 //     form) are judged against the fusion rules: alpha = 1 vector order, alpha = 0 text order,
 //     text-only query text order, alpha = 1/2 the formula alpha*1/(1+d) + (1-alpha)*bm25/max.
+//
 // The abstract terms are bound at run time to words the index language's analyser maps to
 // distinct single tokens (probed through pkg/textanalyzer; the stemmers are not part of the oracle).
 package main
